@@ -92,6 +92,59 @@ fn one<C: Cs>(ctx: &Ctx, st: &Setup<C>, other: Option<&Setup<C>>, r: &mut impl r
     let mut c4 = cpk.clone();
     c4.h = Integer::from(&c4.h * &c4.h) % &c4.N;
     reject("commitment-key-h-squared", &|| verify(&proof, &c4, st.pk(), &bases, &revealed, &u, n));
+    // single-field edits of the signer key and of every base
+    for (nm, f) in [("N+2", 0usize), ("b+1", 1), ("c+1", 2), ("N*3", 3)] {
+        let mut k = st.pk().clone();
+        match f {
+            0 => k.N = Integer::from(&k.N + 2u32),
+            1 => k.b = Integer::from(&k.b + 1u32),
+            2 => k.c = Integer::from(&k.c + 1u32),
+            _ => k.N = Integer::from(&k.N * 3u32),
+        }
+        reject(&format!("signer-key-field/{nm}"), &|| verify(&proof, &cpk, &k, &bases, &revealed, &u, n));
+    }
+    for i in 0..n.min(8) {
+        let mut b4 = bases.clone();
+        b4.0[i] = Integer::from(&b4.0[i] + 1u32);
+        // a revealed attribute equal to 0 contributes a_i^0 = 1: its base is not part of the statement
+        if !u.contains(&i) && msgs[i].value == 0 {
+            ctx.count("base_edits_skipped(revealed attribute is 0)", 1);
+            continue;
+        }
+        reject(&format!("bases-field/a_i+1#{i}"), &|| verify(&proof, &cpk, st.pk(), &b4, &revealed, &u, n));
+    }
+    // single-field edits of the commitment key: every field the statement involves (N, h, g_0 for the
+    // range proof on e, g_i for the hidden positions), one at a time, the rest kept
+    {
+        let mut e = cpk.clone();
+        e.N = Integer::from(&e.N + 2u32);
+        reject("commitment-key-field/N+2", &|| verify(&proof, &e, st.pk(), &bases, &revealed, &u, n));
+        let mut e = cpk.clone();
+        e.N = Integer::from(&e.N * 3u32);
+        reject("commitment-key-field/N*3", &|| verify(&proof, &e, st.pk(), &bases, &revealed, &u, n));
+        if let Some(o) = other {
+            let mut e = cpk.clone();
+            e.N = o.cpk.N.clone();
+            reject("commitment-key-field/N-of-other-key", &|| verify(&proof, &e, st.pk(), &bases, &revealed, &u, n));
+            let mut e = cpk.clone();
+            e.h = o.cpk.h.clone();
+            reject("commitment-key-field/h-of-other-key", &|| verify(&proof, &e, st.pk(), &bases, &revealed, &u, n));
+        }
+        let mut e = cpk.clone();
+        e.h = Integer::from(&e.h + 1u32);
+        reject("commitment-key-field/h+1", &|| verify(&proof, &e, st.pk(), &bases, &revealed, &u, n));
+        for i in 0..n {
+            let mut e = cpk.clone();
+            e.g_bases[i] = Integer::from(&e.g_bases[i] + 1u32);
+            if i == 0 || u.contains(&i) {
+                reject(&format!("commitment-key-field/g_i+1#{i}"), &|| verify(&proof, &e, st.pk(), &bases, &revealed, &u, n));
+            } else {
+                // a base of a revealed position is not part of the statement; what the verifier does is recorded only
+                let v = ctx.call("PoKSignature::proof_verify", &case, None, || Ok::<_, ()>(verify(&proof, &e, st.pk(), &bases, &revealed, &u, n)));
+                ctx.count(&format!("unused_commitment_base_edit_{}", if v.value == Some(true) { "accepted" } else { "rejected" }), 1);
+            }
+        }
+    }
     // other hidden-position sets (same size: same number of revealed attributes)
     let others: Vec<Vec<usize>> = if n <= 5 {
         all_subsets(n)
